@@ -83,6 +83,11 @@ def alt(d):
     return '|'.join(cat(d) for _ in range(k))
 def pattern():
     r=R.random()
+    if r<0.025*BAD:
+        # an invalid pattern padded to 1..100 bytes with characters of 1-4 bytes (what an error message that abbreviates the pattern would cut)
+        p=''; target=R.randint(1,100)
+        while len(p.encode())<target: p+=R.choice(['a','b','1',' ','é','ß','日','𝄞','x','-'])
+        return p+R.choice(['(','[','a{2,1}','*','\\','(?P<','[z-a]'])
     if r<0.03:
         d=R.choice([5,20,48,49,50,51,52,60]); k=R.choice(['(','(?:','(a|','(?:a|']); 
         if R.random()<0.5: return k*d+'a'+')'*d
